@@ -69,7 +69,7 @@ pub fn gen_any_small(rng: &mut Rng, tier: Tier, small: bool) -> Case {
                     }
                 }
             }
-            Case::Cursor(CursorCase { spec, env: EnvPlan::whole(), steps, fresh_each: false, v1: false })
+            Case::Cursor(CursorCase { spec, env: EnvPlan::whole(), steps, fresh_each: false, v1: false, sparse_hole: None })
         }
         2 => {
             let mut spec = if rng.chance(1, 2) { gen::gen_layered_spec(rng, Tier::Quick) } else { gen::gen_file_spec(rng, Tier::Quick, false) };
@@ -125,6 +125,32 @@ pub fn gen_any_small(rng: &mut Rng, tier: Tier, small: bool) -> Case {
 // ------------------------------------------------------------------------------------- C11
 
 pub fn gen_c11(rng: &mut Rng, tier: Tier) -> Case {
+    if rng.chance(1, 120) {
+        // one block of several MiB (an entry larger than any read window a reader may use)
+        let big = rng.urange(4 << 20, 6 << 20) + rng.urange(0, 9);
+        let mut ents = Vec::new();
+        let n = rng.urange(1, 6);
+        let at = rng.usize_below(n);
+        for i in 0..n {
+            let vl = if i == at { big } else { rng.urange(0, 40) };
+            ents.push((B(vec![b'k', i as u8]), B(vec![(i * 37) as u8; vl])));
+        }
+        let knobs = Knobs { codec: *rng.pick(&[0u8, 0, 5, 3]), level: 0, block_size: None, interval: None, levels: *rng.pick(&[0u8, 1]), ctor: 0, fin: 0 };
+        let spec = FileSpec { knobs, entries: Entries::Literal(ents) };
+        let env = gen::gen_env(rng, false);
+        return if rng.chance(1, 2) {
+            Case::File(FileCase { spec, env, v1: false })
+        } else {
+            let steps = vec![
+                CursorStep { cur: 0, op: Op::First },
+                CursorStep { cur: 0, op: Op::NextN(n as u32) },
+                CursorStep { cur: 0, op: Op::Last },
+                CursorStep { cur: 0, op: Op::PrevN(n as u32) },
+                CursorStep { cur: 0, op: Op::Ge(B(vec![b'k', at as u8])) },
+            ];
+            Case::Cursor(CursorCase { spec, env, steps, fresh_each: false, v1: false, sparse_hole: None })
+        };
+    }
     let c = gen_any_small(rng, tier, false);
     let env = gen::gen_env(rng, false);
     with_env(&c, env)
@@ -333,11 +359,12 @@ fn judge_fault(recs: &[Rec], fired: &[FiredFault], st: &mut Stats) -> Option<(St
     match &r.res {
         Res::Err(e) => {
             let ok = match f.kind {
+                // the I/O error as an I/O error: same kind, or a wrapper that still carries the original
                 IoKind::Read | IoKind::Write | IoKind::Flush | IoKind::Seek => {
-                    (e.class == "Io" || e.class == "io::Error") && e.io_kind == f.io_err
+                    (e.class == "Io" || e.class == "io::Error") && (e.io_kind == f.io_err || e.sim_k == Some(f.k))
                 }
                 IoKind::Create => match f.create_variant {
-                    0 | 1 => e.class == "Io" && e.io_kind == f.io_err,
+                    0 | 1 => e.class == "Io" && (e.io_kind == f.io_err || e.sim_k == Some(f.k)),
                     2 => e.class == "InvalidCompressionType",
                     _ => e.class == "InvalidFormatVersion",
                 },
@@ -525,7 +552,9 @@ pub fn check_c17(case: &Case, st: &mut Stats) -> Verdict {
         let live0 = crate::alloc::thread_live() as i64;
         crate::exec::NULL_AT.store(null_at, std::sync::atomic::Ordering::SeqCst);
         let nulls0 = crate::alloc::NULLS_RETURNED.load(std::sync::atomic::Ordering::SeqCst);
-        let r = run_case(case, &plan, &RunOpts::default());
+        let mut opts = RunOpts::default();
+        opts.lean = matches!(case, Case::Sort(s) if s.inserts.len() > 50_000);
+        let r = run_case(case, &plan, &opts);
         crate::exec::NULL_AT.store(usize::MAX, std::sync::atomic::Ordering::SeqCst);
         crate::alloc::disarm();
         let null_fired = crate::alloc::NULLS_RETURNED.load(std::sync::atomic::Ordering::SeqCst) > nulls0;
@@ -672,7 +701,7 @@ pub fn gen_tiny(rng: &mut Rng) -> Case {
                     *k = (*k).min(6);
                 }
             }
-            Case::Cursor(CursorCase { spec, env, steps, fresh_each: false, v1: false })
+            Case::Cursor(CursorCase { spec, env, steps, fresh_each: false, v1: false, sparse_hole: None })
         }
         7 => {
             let n = rng.urange(0, 20);
